@@ -519,6 +519,11 @@ func ruleSyntheticEOF(c *Check, p *Program, rule string) {
 					matched[i] = true
 					okk = true
 					c.OK(rule, "synthetic-eof#"+w.desc, p.InstrPos(in), "io.EOF is produced for the "+w.desc+" exactly under {"+strings.Join(w.atoms, ", ")+"}", "guards match", true)
+					// the word that is compared was actually read: the decision lies behind the success edge of the read
+					// (a failed read leaves the word at zero, which must not pass for an end mark)
+					if sfn == "FrameDataBlock.Read" {
+						c.Cond(hasAtom(atomsOfBlock(in.Block()), "errnil", "", true), rule, "synthetic-eof#"+w.desc+"#after-successful-read", p.InstrPos(in), "the end-of-stream decision is taken only after the size word has been read without error", "governed by err == nil of the read", "the decision is not governed by the success of the read: a failed read (word = 0, error pending) is taken for the "+w.desc)
+					}
 					break
 				}
 			}
